@@ -330,6 +330,79 @@ Definition open_general (Cl O : paths) : bool := open_self_clear O && gp_joint C
 Definition general_position_C05 (S C O : paths) : bool :=
   general_position_open S C O && open_general (S ++ C) O.
 
+(* ---------- the broader judged class: closed paths in general position, open polylines arbitrary ---------- *)
+(* Reading "closed subject and clip paths in general position, open polylines arbitrary" of the quantifier: open vertices may
+   lie within 3 units of (or on) closed edges, crossings may be close together, polylines may fold back.  There the exact
+   piece structure above is not robust (the engine may legitimately place, merge or invent cuts inside the tolerance), so
+   such inputs are judged POINTWISE and only where no reading of the tolerances can excuse a disagreement:
+   a point of the plane at least [delta_rob] = 3 units from every closed edge lies in one cell of the arrangement together
+   with everything within 3 units of it, and open_in_result of its two winding numbers says whether open subjects survive
+   there.  With S, C the closed paths:
+     missing: a sample point x of an open subject segment (1/4, 1/2, 3/4 of every piece between proper crossings) that is
+              >= 3 from every closed edge, lies where subjects survive, and has no solution segment within 2 units;
+     extra  : a point y of a solution segment (both ends, 1/4, 1/2, 3/4) that is >= 3 from every closed edge and lies where
+              subjects do not survive;
+     off    : a solution vertex farther than 3/2 from every subject segment (the literal clause), a solution segment with
+              one of its 1/4, 1/2, 3/4 points farther than 3/2 from every subject segment.
+   No length clause (the number of cuts is not well defined there).  These tests are also sound in the strict class, where
+   the sharper run-based tests of [check_open] are used instead. *)
+Definition delta_rob : Z := 3.
+
+(* winding numbers (closed subject, clip) at the rational point (fst m)/(snd m) when it is >= delta_rob from every closed edge *)
+Definition robust_at (S C : paths) (m : pt * Z) : option (Z * Z) :=
+  let k := snd m in
+  if far_from (delta_rob * k) 1 (edges_closed (scale_paths k (S ++ C))) (fst m)
+  then Some (wn_paths_at S m, wn_paths_at C m) else None.
+
+(* per open segment: the sample parameters with their integer-scaled points and robust winding numbers *)
+Definition sample_pars (iv : Q * Q) : list Q :=
+  let (t0, t1) := iv in
+  [Qplus (Qmult Q3quarter t0) (Qmult Qquarter t1); Qmult (Qplus t0 t1) Qhalf; Qplus (Qmult Qquarter t0) (Qmult Q3quarter t1)].
+
+Record sample := { sm_t : Q; sm_pt : pt * Z; sm_w : option (Z * Z) }.
+
+Definition open_samples (S C O : paths) : list (seg * list sample) :=
+  let es := edges_closed (S ++ C) in
+  map (fun o => (o, map (fun t => let m := lerp o t in {| sm_t := t; sm_pt := m; sm_w := robust_at S C m |})
+                        (flat_map sample_pars (mk_pieces (crossings o es)))))
+      (edges_open O).
+
+Definition survives (ct : clip_type) (fr : fill_rule) (w : option (Z * Z)) : option bool :=
+  match w with Some (ws, wc) => Some (open_in_result ct fr ws wc) | None => None end.
+
+(* the points of a solution segment in 4-fold coordinates: ends and quarter points *)
+Definition seg_pts4 (g : seg) : list pt :=
+  let (p, q) := g in
+  [pscale 4 p; padd (pscale 3 p) q; padd (pscale 2 p) (pscale 2 q); padd p (pscale 3 q); pscale 4 q].
+Definition seg_inner4 (g : seg) : list pt :=
+  let (p, q) := g in [padd (pscale 3 p) q; padd (pscale 2 p) (pscale 2 q); padd p (pscale 3 q)].
+Definition scale_seg (k : Z) (s : seg) : seg := (pscale k (fst s), pscale k (snd s)).
+
+Definition check_open_robust (ct : clip_type) (fr : fill_rule) (S C : paths) (smp : list (seg * list sample)) (sol : paths) : report :=
+  let gs := edges_open sol in
+  let subj := map fst smp in
+  let subj4 := map (scale_seg 4) subj in
+  let missing :=
+    flat_map (fun ss => flat_map (fun x =>
+      match survives ct fr (sm_w x) with
+      | Some true =>
+          let k := snd (sm_pt x) in
+          if existsb (fun g => seg_near (2 * k) 1 (fst (sm_pt x)) (scale_seg k g)) gs then []
+          else [(fst ss, {| r_lo := sm_t x; r_hi := sm_t x; r_kept := true; r_locut := false; r_hicut := false |})]
+      | _ => []
+      end) (snd ss)) smp in
+  let robust_kept := zsum (map (fun ss => zsum (map (fun x => match survives ct fr (sm_w x) with Some true => 1 | _ => 0 end) (snd ss))) smp) in
+  {| rp_off_vertex := filter (fun v => negb (existsb (fun s => seg_near 3 2 v s) subj)) (concat sol);
+     rp_off_seg := filter (fun g => negb (forallb (fun y => existsb (fun s => seg_near 6 1 y s) subj4) (seg_inner4 g))) gs;
+     rp_extra := filter (fun g => existsb (fun y => match survives ct fr (robust_at S C (y, 4)) with Some false => true | _ => false end)
+                                          (seg_pts4 g)) gs;
+     rp_missing := missing;
+     rp_sol_len := (0, 0); rp_kept_len := (0, 0); rp_cuts := 0; rp_len_ok := true;
+     rp_kept_runs := robust_kept |}.
+
+(* the broader judged class *)
+Definition judged_broad (S C O : paths) : bool := general_position (S ++ C) && forallb open_nondegenerate O.
+
 (* ---------- comparing two closed solutions as regions (used when (d) finds different paths) ---------- *)
 Definition wn_diff (tn td : Z) (A B : paths) (pts : list pt) : list pt :=
   let es := edges_closed (A ++ B) in
@@ -356,6 +429,17 @@ Example ex_gp_C05 : (general_position_C05 [] [sq10] [[(-5,5);(15,5)]],
                      general_position_C05 [] [[(0,0);(40,0);(40,40);(0,40)]] [[(-10,5);(50,35)]; [(-10,35);(50,5)]],          (* open x open crossing at (20,20) *)
                      general_position_C05 [] [[(0,0);(40,0);(40,40);(0,40)]] [[(10,30);(30,50)]; [(10,50);(30,30)]])          (* open x open crossing on the edge y = 40 *)
                     = (true, false, true, true, true, false).
+Proof. vm_compute. reflexivity. Qed.
+(* seed-like input: an open vertex one unit inside the clip boundary it has just crossed; the piece (cut, vertex, end) dropped *)
+Example ex_robust :
+  let C := [[(0,0);(300,0);(300,250);(0,250)]] in let O := [[(-104,50);(1,100);(200,180)]] in
+  let smp := open_samples [] C O in
+  (judged_broad [] C O, general_position_open [] C O,
+   length (rp_missing (check_open_robust Intersection NonZero [] C smp [])),
+   length (rp_missing (check_open_robust Intersection NonZero [] C smp [[(0,100);(1,100);(200,180)]])),
+   length (rp_extra (check_open_robust Intersection NonZero [] C smp [[(-104,50);(1,100);(200,180)]])),
+   length (rp_extra (check_open_robust Difference NonZero [] C smp [[(-104,50);(0,100)]])))
+  = (true, false, 3%nat, 0%nat, 1%nat, 0%nat).
 Proof. vm_compute. reflexivity. Qed.
 Example ex_gp_bad : general_position_open [] [sq10] [[(-5,5);(12,5)]] = false.
 Proof. vm_compute. reflexivity. Qed.
